@@ -184,6 +184,22 @@ def c08(tier, seed, t0):
                     assumptions=["json.dumps / dataclasses.asdict run natively on the concretised witness of each path class (C-level code)"])
 
 
+@register("C03")
+def c03(tier, seed, t0):
+    from harness import limits as H
+    res = R.run_pool(H.HNAME, H.chunks(tier), 170 if tier == "quick" else 1500, seed, tier,
+                     extra=dict(sample_rate=0.3, chunk_time=120 if tier == "quick" else 600))
+    agg = R.merge(res)
+    bounds = dict(limits=H.LIMITS, measure="every n in [L-3, L+6] (solver-chosen, one class per value)",
+                  width_contexts=H.WIDTH_CTX, lines_contexts=H.LINES_CTX, count_contexts=H.COUNT_CTX,
+                  symbolic="filler identifiers / comment and string contents (so the verdict holds for every spelling of that width)",
+                  outside="widths outside [77, 86]; other nesting depths / surrounding statements than the listed contexts")
+    return R.report("C03", H.HNAME, tier, seed, agg, t0, bounds, functions=PIPE_FUNCS + [
+        "CheckLineLen.run", "CheckCommentLineLen.run", "CheckLineCount.run", "CheckBrace.run", "CheckFunctionsCount.run",
+        "CheckFuncDeclaration.run", "CheckVariableDeclaration.run", "Lexer.pop (tab stops)"],
+        assumptions=["expected width of each line computed by the harness from the text it builds (tabs as 4-column stops)"])
+
+
 def main():
     ap = argparse.ArgumentParser()
     ap.add_argument("prop")
